@@ -450,7 +450,7 @@ SetLocal(c, dev, ip4, ip6) == [c EXCEPT !.local_dev = dev, !.local_ip4 = ip4, !.
 (* Save / InitFrom / Dup.                                                  *)
 (***************************************************************************)
 \* what struct ares_options can express: IPv4 servers without ports / interface
-Expressible(sv) == sv.a \in {"10.0.0.1", "10.0.0.2", "10.0.0.3", "10.9.9.9", "127.0.0.1"}
+Expressible(sv) == sv.a \in {"10.0.0.1", "10.0.0.2", "10.0.0.3", "10.0.0.4", "10.9.9.9", "127.0.0.1"}
 One(S) == CHOOSE v \in S : TRUE
 SaveOpts(c) ==
   [flags |-> One(c.flags), timeout |-> One(c.timeout), tries |-> One(c.tries), ndots |-> One(c.ndots),
